@@ -3,7 +3,7 @@
 // Everything here is written from the format specifications (Netpbm ppm/pgm/pam man pages, the
 // BITMAPFILEHEADER / BITMAPINFOHEADER / BITMAPV4HEADER / BITMAPV5HEADER layouts, the PNG
 // specification sections 5 (chunks, CRC), 9 (filtering) and 11.2.2 (IHDR)), not from phosg's
-// Image.cc. zlib is used only to inflate the IDAT stream; the chunk CRC is computed with an own
+// Image.cc. zlib is used only to inflate the IDAT stream (with the window size the stream's header declares); the chunk CRC is computed with an own
 // bitwise CRC-32.
 //
 // Shared by the rapidcheck harness (harness/c06_image_codecs.cc) and the libFuzzer target
@@ -87,7 +87,11 @@ struct Rng {
 //   5 repeated / nearly repeated rows (a row is a copy of the row above with 0..2 samples changed anywhere, or new),
 //   6 flat background with sparse marks (adjacent rows equal or differing in a few pixels),
 //   7 every row equals the first one except for marks at the right / left edge
+//   8 few-level noise: every sample is one of L = 2..16 values (L and the values from the seed), and the bottom 0..3 rows repeat
+//     the top rows - low-entropy content without short-range structure: a compressor finds matches all over the image, incl.
+//     at the largest distances the image allows (noise has no matches, smooth / periodic content only near ones)
 // (5..7: content with vertical redundancy - what row filters and compressors key on; uniformly random pixels never have it)
+constexpr unsigned kPixStyles = 9;
 inline Pix make_pix(size_t w, size_t h, bool alpha, unsigned cw, unsigned style, uint64_t seed, uint64_t limit = 0) {
   Pix p;
   p.w = w;
@@ -98,12 +102,23 @@ inline Pix make_pix(size_t w, size_t h, bool alpha, unsigned cw, unsigned style,
   uint64_t m = mask_of(cw);
   if (limit && limit < m) m = limit;
   Rng r(seed);
-  style %= 8;
+  style %= kPixStyles;
   auto clampv = [&](uint64_t val) -> uint64_t {
     if (m == UINT64_MAX) return val;
     if ((m & (m + 1)) == 0) return val & m;
     return (style == 3) ? m : val % (m + 1);
   };
+  if (style == 8) {
+    uint64_t k = r.next() >> 16;
+    unsigned levels = 2 + static_cast<unsigned>(k % 15);
+    size_t rep = (k >> 8) % 4; // bottom `rep` rows = top `rep` rows
+    if (rep * 2 > h) rep = h / 2;
+    uint64_t pal[16];
+    for (unsigned i = 0; i < levels; i++) pal[i] = clampv(r.next());
+    for (size_t i = 0; i < w * h * 4; i++) p.v[i] = pal[(r.next() >> 24) % levels];
+    for (size_t j = 0; j < rep; j++) memcpy(&p.v[(h - rep + j) * w * 4], &p.v[j * w * 4], w * 4 * sizeof(uint64_t));
+    return p;
+  }
   if (style >= 5) {
     uint64_t bg[4];
     for (int c = 0; c < 4; c++) bg[c] = clampv(r.next());
@@ -687,7 +702,13 @@ inline uint32_t crc32_bitwise(const uint8_t* p, size_t n) {
   return c ^ 0xFFFFFFFFu;
 }
 
-inline Pix decode_png(const std::string& f) {
+// what the reader saw of the IDAT data (for the generator-distribution labels)
+struct PngInfo {
+  size_t idat_bytes = 0, idat_chunks = 0;
+  unsigned window_bits = 0; // declared by the zlib header (CINFO + 8)
+};
+
+inline Pix decode_png(const std::string& f, PngInfo* info = nullptr) {
   static const uint8_t sig[8] = {137, 80, 78, 71, 13, 10, 26, 10};
   if (f.size() < 8 || memcmp(f.data(), sig, 8) != 0) throw DecodeError("PNG: bad signature");
   size_t off = 8;
@@ -725,6 +746,7 @@ inline Pix decode_png(const std::string& f) {
       if (idat_done) throw DecodeError("PNG: IDAT chunks are not consecutive");
       in_idat = true;
       idat += data;
+      if (info) info->idat_chunks++;
     } else if (type == "IEND") {
       if (len != 0) throw DecodeError("PNG: IEND is not empty");
       have_iend = true;
@@ -744,17 +766,44 @@ inline Pix decode_png(const std::string& f) {
   size_t bpp = color_type == 6 ? 4 : 3;
   size_t stride = 1 + static_cast<size_t>(w) * bpp;
   std::vector<uint8_t> raw(stride * h + 1);
+  // zlib header (RFC 1950 2.2; PNG 10.1: deflate, window <= 32 KiB, no preset dictionary)
+  if (idat.size() < 2) throw DecodeError("PNG: IDAT data shorter than a zlib header");
+  unsigned cmf = static_cast<uint8_t>(idat[0]), flg = static_cast<uint8_t>(idat[1]);
+  if ((cmf & 15) != 8) throw DecodeError("PNG: zlib header: compression method is not 8 (deflate)");
+  if ((cmf >> 4) > 7) throw DecodeError("PNG: zlib header: CINFO > 7 (window larger than 32 KiB)");
+  if ((cmf * 256 + flg) % 31 != 0) throw DecodeError("PNG: zlib header: FCHECK wrong ((CMF*256+FLG) % 31 != 0)");
+  if (flg & 0x20) throw DecodeError("PNG: zlib header: FDICT set (preset dictionary)");
+  unsigned window_bits = (cmf >> 4) + 8;
+  if (info) info->idat_bytes = idat.size(), info->window_bits = window_bits;
+  // The stream is inflated with exactly the window its header declares (CINFO is a promise to the decoder: "no back-reference
+  // reaches further than 2^(CINFO+8)"; decoders such as libpng size their window from it). With a 32 KiB window - the largest
+  // distance deflate can encode - one call does; with a smaller declared window the output is taken one byte per call, so that
+  // every match is copied out of zlib's sliding window, which holds min(bytes so far, 2^window_bits) bytes: a distance beyond
+  // the declared window is then reported by zlib itself ("invalid distance too far back").
   z_stream zs;
   memset(&zs, 0, sizeof(zs));
-  if (inflateInit(&zs) != Z_OK) throw std::logic_error("inflateInit failed");
+  if (inflateInit2(&zs, static_cast<int>(window_bits)) != Z_OK) throw std::logic_error("inflateInit2 failed");
   zs.next_in = reinterpret_cast<Bytef*>(idat.data());
   zs.avail_in = idat.size();
   zs.next_out = raw.data();
-  zs.avail_out = raw.size();
-  int zr = inflate(&zs, Z_FINISH);
+  int zr;
+  std::string zmsg;
+  if (window_bits == 15) {
+    zs.avail_out = raw.size();
+    zr = inflate(&zs, Z_FINISH);
+  } else {
+    do {
+      zs.avail_out = zs.total_out < raw.size() ? 1 : 0;
+      zr = inflate(&zs, Z_NO_FLUSH);
+    } while (zr == Z_OK && zs.total_out < raw.size());
+    if (zr == Z_OK) zr = inflate(&zs, Z_FINISH); // room exhausted: Z_STREAM_END only if the stream ends here
+  }
+  if (zs.msg) zmsg = zs.msg;
   size_t produced = zs.total_out, consumed = zs.total_in;
   inflateEnd(&zs);
-  if (zr != Z_STREAM_END) throw DecodeError("PNG: zlib stream does not end cleanly (inflate returned " + std::to_string(zr) + ")");
+  if (zr == Z_DATA_ERROR && window_bits < 15 && zmsg.find("distance") != std::string::npos)
+    throw DecodeError("PNG: zlib stream has a back-reference beyond the window its header declares (2^" + std::to_string(window_bits) + " bytes): " + zmsg);
+  if (zr != Z_STREAM_END) throw DecodeError("PNG: zlib stream does not end cleanly (inflate returned " + std::to_string(zr) + (zmsg.empty() ? "" : ": " + zmsg) + ", " + std::to_string(idat.size()) + " bytes of IDAT data)");
   if (consumed != idat.size()) throw DecodeError("PNG: bytes after the end of the zlib stream");
   if (produced != stride * h) throw DecodeError("PNG: decompressed size is not height*(1+width*bpp)");
   Pix p;
